@@ -62,6 +62,15 @@ func enc(e ast.Expr) N {
 		if x.Begin != nil && x.End != nil && x.Cap == nil {
 			return N{"k": "slice", "e": enc(x.Item), "lo": enc(x.Begin), "hi": enc(x.End)}
 		}
+		if x.Begin != nil && x.End != nil && x.Cap != nil {
+			return N{"k": "slice3", "e": enc(x.Item), "lo": enc(x.Begin), "hi": enc(x.End), "c": enc(x.Cap)}
+		}
+		if x.Begin != nil && x.End == nil && x.Cap == nil {
+			return N{"k": "slicelo", "e": enc(x.Item), "lo": enc(x.Begin)}
+		}
+		if x.Begin == nil && x.End != nil && x.Cap == nil {
+			return N{"k": "slicehi", "e": enc(x.Item), "hi": enc(x.End)}
+		}
 	case *ast.CallExpr:
 		if len(x.SubExprs) == 1 && !x.VarArg {
 			return N{"k": "call", "e": N{"k": "leaf", "n": x.Name}, "a": enc(x.SubExprs[0])}
